@@ -11,7 +11,7 @@ use wire::*;
 use wtransport::error::{StreamReadError, StreamWriteError};
 use wtransport::{Connection, RecvStream, SendStream, VarInt};
 
-const RULE: &str = "case = runtime flavour x peer pair in {wtransport<->wtransport, raw peer signals / wtransport observes, wtransport signals / raw peer observes} x opener role x stream kind x direction of a bidirectional stream x signal in {reset(c), stop(c), finish} x phase in {before any data, after k bytes, after finish} x code c in {0, 63, 64, 16383, 16384, 2^30-1, 2^30, 2^62-1, random 62-bit}; plus 'finish only once acknowledged' through the UDP relay (black hole before writing). Oracle: reset(c) -> the peer's reads yield a prefix of the written bytes then Reset(c); stop(c) -> the peer's write (retried until the signal arrived), finish and stopped report Stopped(c); finish -> all bytes then end-of-stream and finish() returns Ok; codes on the wire equal c. Non-trivial: code >= 64 or phase other than 'before any data'; distinct = distinct case";
+const RULE: &str = "case = runtime flavour x peer pair in {wtransport<->wtransport, raw peer signals / wtransport observes, wtransport signals / raw peer observes} x opener role x stream kind x direction of a bidirectional stream x signal in {reset(c), stop(c), finish (SendStream::finish, or tokio AsyncWriteExt::shutdown on the SendStream or on the joined BiStream that stays alive)} x phase in {before any data, after k bytes, after finish} x code c in {0, 63, 64, 16383, 16384, 2^30-1, 2^30, 2^62-1, random 62-bit}; plus 'finish only once acknowledged' through the UDP relay (black hole before writing). Oracle: reset(c) -> the peer's reads yield a prefix of the written bytes then Reset(c); stop(c) -> the peer's write (retried until the signal arrived), finish and stopped report Stopped(c); finish -> all bytes then end-of-stream and finish() returns Ok; codes on the wire equal c. Non-trivial: code >= 64 or phase other than 'before any data'; distinct = distinct case";
 
 #[derive(Clone, Copy, Debug, Serialize, Deserialize, PartialEq)]
 pub enum Signal {
@@ -33,6 +33,11 @@ pub struct Case {
     pub code: u64,
     pub phase: u8,
     pub k: u16,
+    /// how a wtransport sender finishes (pair 0, signal Finish): 0 `SendStream::finish`, 1
+    /// `tokio::io::AsyncWriteExt::shutdown` on the `SendStream`, 2 the same on the joined
+    /// `BiStream` of a bidirectional stream, which is kept alive afterwards
+    #[serde(default)]
+    pub finish_via: u8,
 }
 
 fn code_strategy() -> impl Strategy<Value = u64> {
@@ -44,8 +49,8 @@ fn code_strategy() -> impl Strategy<Value = u64> {
 }
 
 pub fn case_strategy() -> impl Strategy<Value = Case> {
-    (0u8..3, prop_oneof![4 => Just(0u8), 3 => Just(1u8), 3 => Just(2u8), 2 => Just(3u8)], any::<bool>(), any::<bool>(), any::<bool>(), prop_oneof![Just(Signal::Reset), Just(Signal::Stop), Just(Signal::Finish)], code_strategy(), 0u8..3, 1u16..3000)
-        .prop_map(|(flavor, pair, opener_is_client, bidi, reverse, signal, code, phase, k)| Case { flavor, pair, opener_is_client, bidi, reverse: reverse && bidi, signal, code, phase, k })
+    (0u8..3, prop_oneof![4 => Just(0u8), 3 => Just(1u8), 3 => Just(2u8), 2 => Just(3u8)], any::<bool>(), any::<bool>(), any::<bool>(), prop_oneof![Just(Signal::Reset), Just(Signal::Stop), Just(Signal::Finish)], code_strategy(), 0u8..3, (1u16..3000, prop_oneof![2 => Just(0u8), 1 => Just(1u8), 1 => Just(2u8)]))
+        .prop_map(|(flavor, pair, opener_is_client, bidi, reverse, signal, code, phase, (k, finish_via))| Case { flavor, pair, opener_is_client, bidi, reverse: reverse && bidi, signal, code, phase, k, finish_via })
 }
 
 fn data(k: usize) -> Vec<u8> {
@@ -91,7 +96,66 @@ async fn read_until_end(r: &mut RecvStream) -> (Vec<u8>, Result<(), StreamReadEr
     }
 }
 
+/// The sender finishes through tokio's `AsyncWrite::shutdown` (on the send half or on the joined
+/// `BiStream`, which stays alive): the reader must still see all bytes and then end-of-stream.
+async fn exec_finish_tokio(case: Arc<Case>) -> CaseResult {
+    use tokio::io::AsyncWriteExt;
+    let p = match wt_pair(&Tuning::default(), &Tuning::default()).await {
+        Ok(p) => p,
+        Err(e) => return CaseResult::Skip(e),
+    };
+    let (opener, acceptor) = if case.opener_is_client { (p.client.clone(), p.server.clone()) } else { (p.server.clone(), p.client.clone()) };
+    let bound = Duration::from_secs(5);
+    let written = if case.phase >= 1 { data(case.k as usize) } else { b"!".to_vec() };
+    let joined = case.finish_via % 3 == 2 && case.bidi;
+    type Kept = Box<dyn std::any::Any + Send>;
+    let res: Res<(Vec<u8>, Result<(), StreamReadError>, Kept)> = async {
+        if case.bidi {
+            let (os, or) = opener.open_bi().await.map_err(|e| conn_err(&e))?.await.map_err(|e| e.to_string())?;
+            let keep: Kept = if joined {
+                let mut bi = wtransport::stream::BiStream::join((os, or));
+                bi.write_all(&written).await.map_err(|e| e.to_string())?;
+                tokio::time::timeout(bound, bi.shutdown()).await.map_err(|_| "shutdown() never returned")?.map_err(|e| e.to_string())?;
+                Box::new(bi)
+            } else {
+                let mut os = os;
+                os.write_all(&written).await.map_err(|e| e.to_string())?;
+                tokio::time::timeout(bound, AsyncWriteExt::shutdown(&mut os)).await.map_err(|_| "shutdown() never returned")?.map_err(|e| e.to_string())?;
+                Box::new((os, or))
+            };
+            let (acs, mut acr) = tokio::time::timeout(bound, acceptor.accept_bi()).await.map_err(|_| "accept_bi timeout")?.map_err(|e| conn_err(&e))?;
+            let (got, end) = tokio::time::timeout(bound, read_until_end(&mut acr)).await.map_err(|_| "NO-EOF")?;
+            Ok((got, end, Box::new((keep, acs, acr)) as Kept))
+        } else {
+            let mut os = opener.open_uni().await.map_err(|e| conn_err(&e))?.await.map_err(|e| e.to_string())?;
+            os.write_all(&written).await.map_err(|e| e.to_string())?;
+            tokio::time::timeout(bound, AsyncWriteExt::shutdown(&mut os)).await.map_err(|_| "shutdown() never returned")?.map_err(|e| e.to_string())?;
+            let mut acr = tokio::time::timeout(bound, acceptor.accept_uni()).await.map_err(|_| "accept_uni timeout")?.map_err(|e| conn_err(&e))?;
+            let (got, end) = tokio::time::timeout(bound, read_until_end(&mut acr)).await.map_err(|_| "NO-EOF")?;
+            Ok((got, end, Box::new((os, acr)) as Kept))
+        }
+    }
+    .await;
+    let how = if joined { "AsyncWriteExt::shutdown on the joined BiStream" } else { "AsyncWriteExt::shutdown on the SendStream" };
+    match res {
+        Ok((got, Ok(()), _keep)) => {
+            if got != written {
+                return viol("C06:finish:bytes", format!("finished through {how}: reader got {} bytes, writer wrote {}", got.len(), written.len()));
+            }
+        }
+        Ok((_, Err(e), _)) => return viol("C06:finish:reader-error", format!("finished through {how}: reader got {e:?} instead of end-of-stream")),
+        Err(e) if e == "NO-EOF" => return CaseResult::Timeout(format!("finished through {how}: the reader never saw end-of-stream")),
+        Err(e) if e.contains("never returned") => return CaseResult::Timeout(format!("{how}: {e}")),
+        Err(e) => return CaseResult::Skip(e),
+    }
+    drop(p);
+    CaseResult::Pass { nontrivial: case.phase != 0, labels: vec!["signal:finish", "pair:wt-wt", if joined { "finish-via:tokio-shutdown:bistream" } else { "finish-via:tokio-shutdown:sendstream" }] }
+}
+
 async fn exec_wt_wt(case: Arc<Case>) -> CaseResult {
+    if case.signal == Signal::Finish && case.finish_via % 3 != 0 {
+        return exec_finish_tokio(case).await;
+    }
     let (mut w, mut r, _keep) = match open_wt_wt(&case).await {
         Ok(x) => x,
         Err(e) => return CaseResult::Skip(e),
@@ -573,7 +637,7 @@ pub fn run(run: &Run) {
         |c| judge(|| exec(c), true, "C06:signal-lost"),
         |c| serde_json::to_value(c).unwrap(),
     );
-    for l in ["signal:reset", "signal:stop", "signal:finish", "finish-needs-ack", "finish-reissued-after-cancel", "pair:wt-wt", "pair:raw-signals", "pair:wt-signals"] {
+    for l in ["signal:reset", "signal:stop", "signal:finish", "finish-needs-ack", "finish-reissued-after-cancel", "pair:wt-wt", "pair:raw-signals", "pair:wt-signals", "finish-via:tokio-shutdown:bistream", "finish-via:tokio-shutdown:sendstream"] {
         run.essential(l);
     }
 }
